@@ -436,7 +436,8 @@ def handler_reads(func):
                         return a[1] is ast.In if a[1] in (ast.In, ast.NotIn) else None
                     return None
                 acc = [(t, kk, m) for t in g.stmt_nodes() if t.kind == "test" for kk, m in t.succ if edges_where(t.expr, atom).get(kk) is True]
-                state_cond = any(isinstance(a_, ast.If) and any(isinstance(y, ast.Name) and y.id == "state" for y in ast.walk(a_.test))
+                hdefs = {k_: v_ for k_, v_ in single_defs(func.node).items() if k_ != "state"}
+                state_cond = any(isinstance(a_, ast.If) and any(isinstance(y, ast.Name) and y.id == "state" for y in ast.walk(resolve(a_.test, hdefs)))
                                  for a_ in ancestors(x, pm))
                 if not (acc and g.dominated_by(n, [], acc)) and not state_cond:
                     uncond.add(k)
